@@ -372,7 +372,7 @@ pub fn gen_number(src: &mut Src, allow_inf: bool, out: &mut Vec<u8>) {
             };
             format!("{mant}{}{sign}{}{e}", if src.bool() { "e" } else { "E" }, "0".repeat(zeros))
         }
-        23 => src.pick(&["0e99999", "0e-99999", "0.0e+4000", "1e-99999", "1e-0000400", "0E18446744073709551616", "1e-18446744073709551616", "0.000e-2147483649", "-0e2147483648", "1E-4294967296", "100e-00002", "1e00005", "1e000300", "25e-0002", "1.5E+00000000000000000001"]).to_string(),
+        23 => src.pick(&["0e99999", "0e-99999", "0.0e+4000", "1e-99999", "1e-0000400", "0E18446744073709551616", "1e-18446744073709551616", "0.000e-2147483649", "-0e2147483648", "1E-4294967296", "100e-00002", "1.25e-2147483647", "12.345e-2147483648", "0.00125e-4294967295", "100000000000000000000e-2147483647", "1e00005", "1e000300", "25e-0002", "1.5E+00000000000000000001"]).to_string(),
         _ => src.below(100).to_string(),
     };
     out.extend_from_slice(s.as_bytes());
